@@ -199,6 +199,7 @@ func (c *Client) Get(ctx context.Context, key client.ObjectKey, obj client.Objec
 	s.mu.Lock()
 	if fk == FaultCrash {
 		req.Fault = "crash"
+		req.Err = ErrCrashed
 		s.recordLocked(req)
 		s.mu.Unlock()
 		panic(CrashSentinel{req.Seq})
@@ -242,6 +243,7 @@ func (c *Client) List(ctx context.Context, list client.ObjectList, opts ...clien
 	s.mu.Lock()
 	if fk == FaultCrash {
 		req.Fault = "crash"
+		req.Err = ErrCrashed
 		s.recordLocked(req)
 		s.mu.Unlock()
 		panic(CrashSentinel{req.Seq})
@@ -314,6 +316,9 @@ func (c *Client) List(ctx context.Context, list client.ObjectList, opts ...clien
 	return nil
 }
 
+// ErrCrashed marks a request that was never sent because the process crashed at that point.
+var ErrCrashed = fmt.Errorf("simkube: process crashed before this request was sent")
+
 type writeFn func(s *Store, k *KindInfo, req *Request) (Obj, error)
 
 // write is the common path of all mutating requests.
@@ -323,6 +328,7 @@ func (c *Client) write(ctx context.Context, req *Request, kerr error, k *KindInf
 	s.mu.Lock()
 	if fk == FaultCrash {
 		req.Fault = "crash"
+		req.Err = ErrCrashed
 		s.recordLocked(req)
 		s.mu.Unlock()
 		panic(CrashSentinel{req.Seq})
